@@ -16,12 +16,19 @@ GarbageLabels(e) ==
     \cup (IF ~e.is_valid /\ ~e.unchanged THEN {<<"C13.garbage_changed_state", e.kind>>} ELSE {})
     \cup (IF ~e.other_ok THEN {<<"C13.other_connection_disturbed", e.kind>>} ELSE {})
 
+(* a poll answer decoded by the SDK (binary framing or HTTP/JSON) is exactly what was sent, in every window *)
+PollbackLabels(e) ==
+    (IF e.res # "ok" THEN {<<"C13.poll_failed", e.transport, e.o, e.c, e.res>>} ELSE {})
+    \cup (IF e.res = "ok" /\ e.got # e.want THEN {<<"C13.response_differs", e.transport, e.o, e.c, Len(e.got), Len(e.want)>>} ELSE {})
+    \cup (IF e.res = "ok" /\ e.cur # e.cur_want THEN {<<"C13.response_current_offset", e.transport, e.cur, e.cur_want>>} ELSE {})
+
 TraceInit == Init /\ l = 1 /\ bad = {}
 TraceNext ==
     /\ l <= Len(Rec) /\ l' = l + 1 /\ UNCHANGED vars
     /\ LET e == Rec[l] IN
        bad' = CASE e.ev = "roundtrip" -> RoundtripLabels(e)
                 [] e.ev = "garbage" -> GarbageLabels(e)
+                [] e.ev = "pollback" -> PollbackLabels(e)
                 [] OTHER -> {}
 TraceSpec == TraceInit /\ [][TraceNext]_tvars
 NoBad == bad = {} \/ PrintT("BAD " \o ToJson([line |-> l - 1, sc |-> Rec[l - 1].sc, i |-> Rec[l - 1].i,
